@@ -253,9 +253,10 @@ def run(case, ctx):
             if c is ts:
                 ctx.fail("copy/equal", "%s returned the same object" % how)
             # still validates: an invalid item is rejected with TraitError, a valid one accepted
-            if vname in ("reject", "strict") or (vname == "trait" and how == "deepcopy"):
-                # (a TraitSetObject that is pickled or shallow-copied on its own is documented to come back
-                #  disconnected from its trait; C14 covers pickling it together with its owner)
+            if vname in ("reject", "strict") or (vname == "trait" and how in ("deepcopy", "copy")):
+                # (a TraitSetObject that is PICKLED on its own comes back disconnected from its trait - its state has neither
+                #  the owner nor the trait; C14 covers pickling it together with its owner.  A shallow copy shares the
+                #  original's validator, which still knows the trait while the original lives - as it does here)
                 try:
                     c.add(None)
                 except TraitError:
